@@ -2192,11 +2192,12 @@ struct Engine
             const VM& mm = m[0];
             if (!mm.present) return out;
             const int n = static_cast<int>(mm.el.size());
-            // set-up: two elements of different varying sizes
+            // set-up: elements of different varying sizes 1, 2, 3 (so that sizes on both sides of every block-size
+            // boundary of the element storage occur: smaller into larger, larger into smaller, equal unit counts)
             if (mm.el.size() < mm.cap)
             {
                 Op o = mk(O_EB, 0);
-                const int c = n == 0 ? 1 : 2;
+                const int c = n + 1;
                 for (std::size_t i = 0; i < LS::NV; ++i) o.a[1 + i] = static_cast<int8_t>(c);
                 if (LS::payload_bytes(counts_of(o)) <= mm.budget - mm.used()) out.push_back(o);
             }
